@@ -360,6 +360,9 @@ func c16(raw json.RawMessage, resp *drv.Response) error {
 		}
 		nConst, nWires = 1, s.RW
 	}
+	if req.Part == "degenerate" {
+		return c16Degenerate(s, cd, req, resp, rng, nConst, nWires)
+	}
 	for rep := 0; rep < req.NRandom; rep++ {
 		d := randData(cd, rng, nConst, nWires)
 		var gv []gf.E
@@ -422,4 +425,115 @@ func vanishingRealSafe(d *plonkData) (out []gf.E, msg string) {
 		return nil, firstLine(err)
 	}
 	return o, ""
+}
+
+// solveProducts makes every chunk check of the permutation argument vanish: acc_{j+1} = acc_j * num_j / den_j from Z(zeta).
+func solveProducts(d *plonkData) bool {
+	nc := len(d.betas)
+	rw := int(d.cd.Config.NumRoutedWires)
+	qd := int(d.cd.QuotientDegreeFactor)
+	npp := int(d.cd.NumPartialProducts)
+	for i := 0; i < nc; i++ {
+		acc := d.zs[i]
+		b, g := gf.EB(d.betas[i]), gf.EB(d.gammas[i])
+		chunk := 0
+		for lo := 0; lo < rw; lo += qd {
+			hi := lo + qd
+			if hi > rw {
+				hi = rw
+			}
+			num, den := gf.E1(), gf.E1()
+			for j := lo; j < hi; j++ {
+				k := gf.EB(new(big.Int).SetUint64(d.cd.KIs[j]))
+				num = gf.EMul(num, gf.EAdd(gf.EAdd(d.wires[j], gf.EMul(b, gf.EMul(k, d.zeta))), g))
+				den = gf.EMul(den, gf.EAdd(gf.EAdd(d.wires[j], gf.EMul(b, d.sigmas[j])), g))
+			}
+			di, ok := gf.EInv(den)
+			if !ok {
+				return false
+			}
+			acc = gf.EMul(gf.EMul(acc, num), di)
+			if chunk < npp {
+				d.pps[i*npp+chunk] = acc
+			} else {
+				d.zsnext[i] = acc
+			}
+			chunk++
+		}
+	}
+	return true
+}
+
+// c16Degenerate: zeta on the subgroup H, where Z_H(zeta) = 0 and the identity reads "the combination vanishes".
+//
+//	zeta = w^j, j != 0: L0(zeta) = 0; openings whose chunk checks all vanish satisfy the identity for any quotient -> accept;
+//	                    one opening of the permutation argument changed -> reject.
+//	zeta = 1:           L0(1) = 1; with Z(1) != 1 the identity fails -> must not be accepted.  (With Z(1) = 1 the identity holds but
+//	                    the code - like plonky2's recursive verifier - cannot form L0 and accepts nothing at zeta = 1; that point is
+//	                    not replayed, see DESIGN.md.)
+func c16Degenerate(s *plonkShape, cd types.CommonCircuitData, req c16Req, resp *drv.Response, rng *rand.Rand, nConst, nWires int) error {
+	n := new(big.Int).Lsh(big.NewInt(1), uint(s.DB))
+	w := new(big.Int).Exp(big.NewInt(7), new(big.Int).Div(new(big.Int).Sub(bigP, one), n), bigP) // a primitive n-th root of unity
+	sig := fmt.Sprintf("nc=%d rw=%d qd=%d", s.NC, s.RW, s.QD)
+	for rep := 0; rep < req.NRandom; rep++ {
+		for _, kind := range []string{"one", "root"} {
+			d := randData(cd, rng, nConst, nWires)
+			if kind == "one" {
+				d.zeta = gf.E{big.NewInt(1), big.NewInt(0)}
+			} else {
+				j := new(big.Int).Add(one, drv.RandBelow(rng, new(big.Int).Sub(n, one)))
+				d.zeta = gf.E{new(big.Int).Exp(w, j, bigP), big.NewInt(0)}
+			}
+			if !solveProducts(d) {
+				continue
+			}
+			env := d.env(nil)
+			if zh, ok := terms.Eval(s.ZH, env); !ok || !zh.IsZero() {
+				return fmt.Errorf("degenerate: Z_H(zeta) is not zero on the subgroup")
+			}
+			key := fmt.Sprintf("degenerate/%s/%s/%d/%s", kind, sig, rep, estr(d.zeta))
+			out, msg := verifyReal(d)
+			resp.Count(key, false)
+			if kind == "one" {
+				if out == "accept" {
+					resp.Violate("c16/degenerate/accepted zeta=1 "+sig, "zeta = 1, Z(1) = "+estr(d.zs[0])+" != 1 and every other term vanishing: L0(1)(Z(1)-1) != 0 = Z_H(1) t(1), yet the PLONK check accepts", map[string]any{"shape": []int{s.NC, s.RW, s.QD}})
+				}
+				continue
+			}
+			ok := true
+			for i := 0; i < s.NC; i++ {
+				if v, e := terms.Eval(s.Vanishing[i], env); !e || !v.IsZero() {
+					ok = false
+				}
+			}
+			if !ok {
+				return fmt.Errorf("degenerate: the constructed openings do not make the reference combination vanish (driver construction error)")
+			}
+			if out != "accept" {
+				resp.Violate("c16/degenerate/"+out+"-instead-of-accept zeta=root "+sig, "zeta on the subgroup (not 1), every term of the combination vanishing: identity 0 = 0 holds, the check gives "+out+": "+msg, map[string]any{"shape": []int{s.NC, s.RW, s.QD}})
+				continue
+			}
+			for t := 0; t < req.NPerturb; t++ {
+				d2 := *d
+				cp := func(x []gf.E) []gf.E { return append([]gf.E{}, x...) }
+				d2.sigmas, d2.wires, d2.zs, d2.zsnext, d2.pps = cp(d.sigmas), cp(d.wires), cp(d.zs), cp(d.zsnext), cp(d.pps)
+				lists := map[string][]gf.E{"zs": d2.zs, "zsnext": d2.zsnext, "wires": d2.wires[:s.RW], "sigmas": d2.sigmas}
+				names := []string{"zs", "zsnext", "wires", "sigmas"}
+				if len(d2.pps) > 0 {
+					lists["pps"] = d2.pps
+					names = append(names, "pps")
+				}
+				what := names[rng.Intn(len(names))]
+				l := lists[what]
+				ix := rng.Intn(len(l))
+				l[ix] = gf.EAdd(l[ix], gf.E{big.NewInt(int64(rng.Intn(2))), big.NewInt(int64(1 + rng.Intn(5)))})
+				out2, _ := verifyReal(&d2)
+				resp.Count(key+"/"+what+fmt.Sprint(ix), false)
+				if out2 == "accept" {
+					resp.Violate("c16/degenerate/reject-accepted zeta=root "+sig, fmt.Sprintf("zeta on the subgroup: after changing %s[%d] a chunk check no longer vanishes, yet the PLONK check accepts", what, ix), map[string]any{"what": what})
+				}
+			}
+		}
+	}
+	return nil
 }
